@@ -20,6 +20,9 @@ CHECKS = {
  "C08": ("model_checking", "deviation-bounded exploration of environment answers: map iteration order at every range-over-map site is chosen by the explorer (overlay rewriter generated from the working tree)",
          "every range-over-map loop of goflow is rewritten (go/packages + go build -overlay, from the current tree) to iterate in explorer-chosen order; for each scenario (map-heavy engine sessions x language x trigger x clock step x history; migrate/clone/read/inspect/extract/change-language/PO export of every flow in the repository's test assets) run 0 takes canonical order and every static site hit is then deviated under 4 permutation policies (thorough: every dynamic point and all site pairs); all outputs must be byte-identical, and order-independent scenarios are cross-checked against a fresh process of the un-rewritten build",
          "only goflow's own map iterations are explored; permutation policies instead of all n! orders for n>3; scenario set is finite"),
+ "C09": ("model_checking", "stateless model checking of interleavings under a cooperative scheduler (sync rebound by overlay), explicit-state search for shared-state immutability, plus a free-running -race pass (labelled sampling)",
+         "(A) every operation sequence up to length 2/3 over the session operations is run on cold shared assets while a reflect+unsafe walker snapshots the SessionAssets graph and every package-level variable of every goflow package: any mutation not explained by publication under a mutex or a sync.Once is a racing write; (B) every schedule of 2 (thorough 3) session scripts up to a preemption bound under a cooperative scheduler with scheduling points at Lock/Unlock/Once, inside the critical section and at operation boundaries: no deadlock, outputs equal the solo runs, one cache entry per flow; (C) the same scripts free-running in fresh -race processes",
+         "stage A sees writes not reads; sequential consistency; third-party state opaque; stage C samples schedules and never makes a run exhaustive"),
  "C10": ("fault_enumeration", "fault enumeration on every reachable state: all resume types x all single asset faults x live/restored",
          "every state reached by the BFS over the real engine x every resume type x {live, restored} x every single asset fault between sprints plus the storage fault; rejected resumes must leave JSON byte-identical with an empty sprint and not influence a later accepted resume (differential), impossible resumptions must fail the session",
          "single faults in quick tier; faults are edits of the asset document; small-scope graphs"),
